@@ -360,7 +360,7 @@ def program_of(ctx, env, blk):
     pre = 'class UserExc(Exception): pass\nxflag = True\nzq = "global-zq"\n'
     if env.get('shadow'):
         pre += 'def ValueError():\n    return KeyError("made")\n'
-    post = ''
+    post = 'emit(("gzq", zq))\n'
     if env.get('usesDoc'):
         post += 'emit(("doc", __doc__))\n'
     if env.get('tainted'):
@@ -388,7 +388,7 @@ def validate_case(case):
             continue
         if got != want:
             bad.append({'kind': 'eraser-rejects-what-S-allows', 'ctx': ctx, 'env': env, 'blk': blk, 'opts': opts, 'b': b})
-    binders = any(tuple(st) in (('dbg_bind',), ('assert_bind',)) for st in blk)
+    binders = any(tuple(st) in (('dbg_bind',), ('assert_bind',), ('dbg_global',)) for st in blk)
     if not binders:
         for b in case['wider']:
             try:
